@@ -47,7 +47,8 @@ ALL_EXT = {e: f for f, es in WRITE_EXT.items() for e in es}
 DEST_STATES = ['absent', 'missing_dir', 'file_empty', 'file_junk',
                'symlink_file', 'symlink_dangling', 'symlink_dir', 'directory',
                'reuse', 'badname', 'symlink_chain', 'symlink_abs',
-               'symlink_updir', 'symlink_loop', 'linked_parent', 'hardlink']
+               'symlink_updir', 'symlink_loop', 'linked_parent', 'hardlink',
+               'dotdot_link']
 FAULTS = ['none', 'elem', 'bad_option', 'warn_elem', 'unencodable',
           'nonascii_ok']
 
@@ -376,6 +377,21 @@ def gen_step(rng, fmt, dest_state, overwrite, fault, encoding, names, idx):
                      'target': f'realdir{idx}'})
         name = f'ldir{idx}/' + os.path.basename(name)
         if rng.chance(0.5):
+            prep.append({'op': 'mkfile', 'path': name,
+                         'content': rng.pick(['junk', 'text', 'empty'])})
+    elif dest_state == 'dotdot_link':
+        # the name handed to the writer runs through a directory link and
+        # back up with "..": the operating system resolves that to the
+        # parent of the link's TARGET, a lexical clean-up of the string
+        # (abspath / normpath) to the parent of the LINK
+        prep.append({'op': 'mkdir', 'path': f'deep{idx}'})
+        prep.append({'op': 'mkdir', 'path': f'deep{idx}/inner'})
+        prep.append({'op': 'symlink', 'path': f'lnk{idx}',
+                     'target': f'deep{idx}/inner'})
+        bn = os.path.basename(name)
+        name = f'deep{idx}/{bn}'
+        step['dest_as'] = f'lnk{idx}/../{bn}'
+        if rng.chance(0.6):
             prep.append({'op': 'mkfile', 'path': name,
                          'content': rng.pick(['junk', 'text', 'empty'])})
     elif dest_state == 'hardlink':
@@ -785,6 +801,14 @@ class Run:
         before = snapshot(self.disk)
         dest_rel = os.path.normpath(step['dest'])
         dest_path = self.path(step['dest'])
+        if step.get('dest_as'):
+            # another spelling of the same destination (never normalised)
+            style = self.cfg['path_style']
+            dest_path = {'abs': os.path.join(self.disk, step['dest_as']),
+                         'dotdot': os.path.join(self.disk, 'sub', '..',
+                                                step['dest_as']),
+                         'tilde': '~/' + step['dest_as'],
+                         'rel': step['dest_as']}[style]
         existed = os.path.lexists(os.path.join(self.disk, dest_rel))
         # the snapshot does not descend into linked directories: the entry
         # of the destination is the one below its real parent directory
@@ -1078,7 +1102,7 @@ def abstract_states(result):
 
 # ------------------------------------------------------ driver interface
 RULE = ('seeded search: run i is assigned cell (i mod #cells) of format x '
-        'destination-state x overwrite x fault-kind (all 576 cells), the '
+        'destination-state x overwrite x fault-kind (all 612 cells), the '
         'remaining 0-3 steps, list lengths, failing position, API, format '
         'resolution, options and ambient configuration are drawn from the '
         'run seed. A state is the tuple (format, api, destination entry '
@@ -1112,9 +1136,9 @@ def preload():
 
 
 def tiers(**kw):
-    return {'quick': {'runs': 2304, 'selftest': 24, 'limit': 120,
+    return {'quick': {'runs': 2448, 'selftest': 24, 'limit': 120,
                       'chunk': 12},
-            'thorough': {'runs': 57600, 'selftest': 256, 'limit': 120,
+            'thorough': {'runs': 61200, 'selftest': 256, 'limit': 120,
                          'chunk': 40, 'min_budget': 250}}
 
 
@@ -1144,7 +1168,8 @@ def describe(plan, res):
                          for p in s['prep'])
         regs = [r.get('cls', r.get('t')) for r in s['regions']]
         lines.append(
-            f'  step {i}: prep[{prep}] {s["api"]}.write({s["dest"]!r}, '
+            f'  step {i}: prep[{prep}] {s["api"]}.write('
+            f'{s.get("dest_as") or s["dest"]!r}, '
             f'format={s["format"]!r}, overwrite={s["overwrite"]!r}, '
             f'pathlib={bool(s.get("pathlib") and s["format"] is not None)}, '
             f'**{json_s(s["kwargs"])}) fmt={s["fmt"]} regions={regs} '
